@@ -55,6 +55,7 @@ type pendingOp struct {
 	corruptionsAtStart int
 	discardsAtStart    float64
 	newsAtStart        int64
+	compRefreshed      bool // comp: the model says this composite read refreshes the parent
 	// comp
 	child  int
 	slices []slicing.BlobSlice
@@ -85,8 +86,9 @@ func (g *gatedChunkReader) Close() {}
 // gatedReader is the io.Reader form of the same source (uploads arriving through ByteStream.Write are
 // reader-backed buffers, which reach the block writers through io.Copy instead of one Write per chunk).
 type gatedReader struct {
-	g    gatedChunkReader
-	rest []byte
+	g       gatedChunkReader
+	rest    []byte
+	eofLast bool // deliver io.EOF together with the last bytes (as many readers do)
 }
 
 func (g *gatedReader) Read(p []byte) (int, error) {
@@ -99,6 +101,9 @@ func (g *gatedReader) Read(p []byte) (int, error) {
 	}
 	n := copy(p, g.rest)
 	g.rest = g.rest[n:]
+	if g.eofLast && len(g.rest) == 0 && g.g.op.next >= len(g.g.op.chunks) && g.g.op.failErr == nil {
+		return n, io.EOF
+	}
 	return n, nil
 }
 
@@ -234,8 +239,8 @@ func (r *Runner) launchPut(id, obj, ver int, chunking, fault string) (*pendingOp
 			data[len(data)/2] ^= 0x01
 			op.copied = false
 		}
-		asReader := strings.HasPrefix(chunking, "r")
-		op.chunks = splitChunks(data, strings.TrimPrefix(chunking, "r"))
+		asReader := strings.HasPrefix(chunking, "r") || strings.HasPrefix(chunking, "R")
+		op.chunks = splitChunks(data, strings.TrimPrefix(strings.TrimPrefix(chunking, "r"), "R"))
 		if asReader {
 			// an io.Reader must not return (0, nil): no empty chunks
 			var cs [][]byte
@@ -257,7 +262,7 @@ func (r *Runner) launchPut(id, obj, ver int, chunking, fault string) (*pendingOp
 			op.copied = false
 		}
 		if asReader {
-			b = buffer.NewCASBufferFromReader(d, &gatedReader{g: gatedChunkReader{r: r, op: op}}, buffer.UserProvided)
+			b = buffer.NewCASBufferFromReader(d, &gatedReader{g: gatedChunkReader{r: r, op: op}, eofLast: strings.HasPrefix(chunking, "R")}, buffer.UserProvided)
 		} else {
 			b = buffer.NewCASBufferFromChunkReader(d, &gatedChunkReader{r: r, op: op}, buffer.UserProvided)
 		}
@@ -265,7 +270,14 @@ func (r *Runner) launchPut(id, obj, ver int, chunking, fault string) (*pendingOp
 	r.pending[id] = op
 	r.ioFired = false
 	go func() {
-		err := r.st.BA.Put(context.Background(), d, b)
+		ctx := context.Background()
+		if fault == "cancel" {
+			// the caller has gone away already: the upload may fail or go through, but it must release what it took
+			c, cancel := context.WithCancel(ctx)
+			cancel()
+			ctx = c
+		}
+		err := r.st.BA.Put(ctx, d, b)
 		reply := "ok"
 		if err != nil {
 			reply = Code(err)
@@ -328,6 +340,25 @@ func consumeMode(b buffer.Buffer, mode string, size int) (string, []byte) {
 		n, err = b.ReadAt(data, int64(off))
 		if err == nil || (err == io.EOF && n == ln) {
 			return fmt.Sprintf("partial %d", off), data[:n]
+		}
+	case "k":
+		// a chunk reader opened at an offset inside the object (a resumed ByteStream read)
+		if size < 3 {
+			return consumeMode(b, "c", size)
+		}
+		off := size / 3
+		cr := b.ToChunkReader(int64(off), 3)
+		for {
+			var c []byte
+			c, err = cr.Read()
+			if err != nil {
+				break
+			}
+			data = append(data, c...)
+		}
+		cr.Close()
+		if err == io.EOF {
+			return fmt.Sprintf("partial %d", off), data
 		}
 	case "o":
 		// a chunk reader opened at an offset beyond the end of the object (a client's read_offset is passed on as is):
